@@ -46,6 +46,16 @@ def step (st : St) (ws : List String) : St × String :=
       | .cmds cs => cs
       | .nothing => []
     (st, " ".intercalate (c ++ (if inv == "1" then ["CLIENT_TRACKING_OFF"] else [])))
+  | "retry" :: meth :: delays =>
+    -- model: the retry loop with what happened during each delay (n nothing | r release | c close)
+    let m : Meth := if meth == "do" then .do_ else if meth == "multi" then .doMulti 2 else .receive
+    let ds : List Between := delays.map fun w => if w == "r" then .release else if w == "c" then .close else .nothing
+    let r := retryLoop m {} ds
+    (st, showRet r.2.2 ++ s!" passes={(r.2.1.filter (· == m.call)).length}")
+  | "!retry" :: _ :: delays =>
+    -- specification: nothing issued through the handle reaches the server once it was released
+    let k := (delays.takeWhile (· == "n")).length
+    (st, if k == delays.length then s!"ok passes={k + 1}" else s!"recycled passes={k + 1}")
   | "!iso" :: needs :: toks => (st, if isoOK (needs == "needs=1") (toks.map parseTok) then "ok" else "VIOLATION:not-isolated")
   | _ => (st, "bad-op")
 
